@@ -1,3 +1,4 @@
+(* EXTRACT *)
 (* Model of jpeg2000/colorspace/rct.go : RCTForward / RCTInverse and the slice versions. *)
 From V Require Import Common.Base.
 
